@@ -410,9 +410,13 @@ func runJobs(metas []*jobMeta, workers int, res *drv.Result) []jobRes {
 					fmu.Lock()
 					n := fatals[k]
 					fmu.Unlock()
-					if n >= 2 {
+					lim := 2
+					if strings.HasPrefix(k, "random|") {
+						lim = 24
+					}
+					if n >= lim {
 						// killing a child costs > 1 s: the same mutation of the same kind of token already did it twice
-						out[i] = jobRes{ID: i, Out: "skipped", Detail: "same mutation class already killed the decoder process twice"}
+						out[i] = jobRes{ID: i, Out: "skipped", Detail: "the same mutation class already killed the decoder process repeatedly"}
 						res.Add("skipped_after_fatal", 1)
 						continue
 					}
@@ -459,6 +463,11 @@ func runJobs(metas []*jobMeta, workers int, res *drv.Result) []jobRes {
 					if r.Bye {
 						c.stop()
 						c = nil
+						if r.MemMB > 1536 {
+							fmu.Lock()
+							fatals[metas[i].key]++
+							fmu.Unlock()
+						}
 					}
 				case <-time.After(30 * time.Second):
 					c.cmd.Process.Kill()
@@ -500,7 +509,7 @@ func TestWireMut(t *testing.T) {
 	nRandom := 3
 	protoEvery := 2
 	if thorough {
-		nRandom, protoEvery = 120, 1
+		nRandom, protoEvery = 40, 1
 	}
 	if os.Getenv("VERIF_REPLAY") != "" {
 		protoEvery = 1
@@ -549,7 +558,7 @@ func TestWireMut(t *testing.T) {
 			}
 			key := fmt.Sprintf("%s|%s|%s|%s|%d", c.Ty, m.Op, role, m.Tok.K, m.Tok.N)
 			add(&jobMeta{key: key, dec: c.Ty, data: data, exp: m.Exp, over: m.Over, class: class, desc: desc, line: c.line})
-			if c.Ty == "Envelope" && m.Op != "grow" && (len(metas)%6 == 0 || thorough) {
+			if c.Ty == "Envelope" && m.Op != "grow" && len(metas)%6 == 0 {
 				add(&jobMeta{dec: "Proto", data: data, exp: "any", class: "native-bytes", desc: "native stream fed to the protobuf decoder: " + desc, line: c.line})
 			}
 		}
@@ -560,7 +569,7 @@ func TestWireMut(t *testing.T) {
 		for k := 0; k < nRandom; k++ {
 			data, what := randomMutant(rng, base)
 			res.Add("random", 1)
-			add(&jobMeta{dec: c.Ty, data: data, exp: "any", class: "random", desc: "random mutant: " + what, line: c.line})
+			add(&jobMeta{key: "random|" + c.Ty, dec: c.Ty, data: data, exp: "any", class: "random", desc: "random mutant: " + what, line: c.line})
 		}
 		if c.Ty != "Envelope" {
 			continue
@@ -607,7 +616,7 @@ func TestWireMut(t *testing.T) {
 				continue
 			}
 			res.Add("random", 1)
-			add(&jobMeta{dec: "Proto", data: frame(body), exp: "any", class: "random", desc: "random mutant of the protobuf body: " + what, line: c.line})
+			add(&jobMeta{key: "random|Proto", dec: "Proto", data: frame(body), exp: "any", class: "random", desc: "random mutant of the protobuf body: " + what, line: c.line})
 		}
 	}
 	res.Add("streams", len(metas))
